@@ -161,6 +161,7 @@ fn child_once(c: &J) -> J {
   let xml = c["xml"].as_str().unwrap_or("");
   let mut panics = vec![];
   let mut inv = vec![];
+  let mut build_error = String::new();
   let load = guarded(|| dmntk_model::parse(xml));
   let (load_class, build_class) = match load {
     Err(msg) => {
@@ -173,7 +174,10 @@ fn child_once(c: &J) -> J {
         panics.push(json!({"stage": "build", "msg": msg}));
         ("model", "panic")
       }
-      Ok(Err(_)) => ("model", "error"),
+      Ok(Err(e)) => {
+        build_error = e.to_string();
+        ("model", "error")
+      }
       Ok(Ok(me)) => {
         let scope = dmntk_feel::Scope::default();
         let ctxs: Vec<dmntk_feel::context::FeelContext> = c["ctxs"].as_array().map(|a| a.iter().filter_map(|t| guarded(|| dmntk_feel_evaluator::evaluate_context(&scope, t.as_str().unwrap_or("{}")).ok()).ok().flatten()).collect()).unwrap_or_default();
@@ -209,7 +213,7 @@ fn child_once(c: &J) -> J {
       }
     },
   };
-  json!({"load": load_class, "build": build_class, "inv": inv, "panics": panics, "count": c["count"]})
+  json!({"load": load_class, "build": build_class, "inv": inv, "panics": panics, "count": c["count"], "build_error": build_error})
 }
 
 struct Model {
@@ -362,6 +366,29 @@ fn deep_model_xml() -> String {
   x
 }
 
+/// A generated model whose item definitions, input data and decisions carry names with characters of two, three and
+/// four bytes at every byte offset from 0 to 8 (code that slices names and type references at fixed byte offsets).
+fn names_model_xml() -> (String, Vec<String>) {
+  let names = [
+    "é", "aé", "aaé", "aaaé", "aaaaé", "aaaaaé", "aaaaaaé", "aaaaaaaé", "Größe", "Größen", "Ширина", "名前", "aaaaก", "aaaaaก", "aaa𐐀", "aaaa𐐀", "aaaaa𐐀", "aa𐐀b", "feelé",
+  ];
+  let mut x = String::from("<?xml version=\"1.0\" encoding=\"UTF-8\"?>\n<definitions xmlns=\"https://www.omg.org/spec/DMN/20191111/MODEL/\" namespace=\"https://verif/c12names\" name=\"c12names\" id=\"_c12names\">\n");
+  let mut invocables = vec![];
+  for (k, n) in names.iter().enumerate() {
+    x.push_str(&format!("<itemDefinition name=\"{n}\"><typeRef>{t}</typeRef></itemDefinition>\n", n = n, t = if k % 2 == 0 { "number" } else { "string" }));
+    x.push_str(&format!("<itemDefinition name=\"L{n}\" isCollection=\"true\"><typeRef>{n}</typeRef></itemDefinition>\n", n = n));
+    x.push_str(&format!("<inputData name=\"inp {n}\" id=\"i{k}\"><variable name=\"inp {n}\" typeRef=\"{n}\"/></inputData>\n", n = n, k = k));
+    x.push_str(&format!(
+      "<decision name=\"out {n}\" id=\"d{k}\"><variable name=\"out {n}\" typeRef=\"L{n}\"/><informationRequirement><requiredInput href=\"#i{k}\"/></informationRequirement><literalExpression><text>[inp {n}]</text></literalExpression></decision>\n",
+      n = n,
+      k = k
+    ));
+    invocables.push(format!("out {}", n));
+  }
+  x.push_str("</definitions>\n");
+  (x, invocables)
+}
+
 fn normalise_panic(msg: &str) -> String {
   let (m, loc) = msg.rsplit_once(" at ").unwrap_or((msg, ""));
   let file = loc.rsplit_once(':').map(|(f, _)| f).unwrap_or(loc);
@@ -448,6 +475,13 @@ pub fn check(mut ctx: Ctx, replay: Option<J>) -> ! {
     // a large generated model, as it is
     recs.push(json!({"src": "bytes", "m": 1, "ops": [], "seed": 0, "model": "generated/c12_deep.dmn", "xml": deep_model_xml(),
       "ctxs": ["{Code: 2}", "{Code: 12000}", "{Code: 5000}", "{}"], "names": ["Label", "c149", "Table"]}));
+    // a generated model whose names hold multi-byte characters at every small byte offset, as it is
+    {
+      let (xml, mut names) = names_model_xml();
+      names.truncate(12);
+      recs.push(json!({"src": "bytes", "m": 1, "ops": [], "seed": 0, "model": "generated/c12_names.dmn", "xml": xml,
+        "ctxs": ["{inp é: 1, inp aé: \"s\", inp Größe: 5, inp Ширина: \"w\"}", "{}"], "names": names}));
+    }
     // random character-level corruption (each record carries the seed of its own corruption)
     let mut rng = Rng::new(ctx.seed);
     let small: Vec<usize> = (0..models.len()).filter(|m| models[*m].xml.len() < 60_000).collect();
@@ -457,6 +491,7 @@ pub fn check(mut ctx: Ctx, replay: Option<J>) -> ! {
     }
   }
   let by_path: BTreeMap<&str, &Model> = models.iter().map(|m| (m.path.as_str(), m)).collect();
+  let mut generated_as_they_are: Vec<J> = vec![];
   // the text of a record: the fault script applied, or the seeded corruption, or the replayed text
   let text_of = |r: &J| -> String {
     if let Some(x) = r["xml"].as_str() {
@@ -548,6 +583,9 @@ pub fn check(mut ctx: Ctx, replay: Option<J>) -> ! {
       for k in ["load", "build", "inv", "panics"] {
         r[k] = res[k].clone();
       }
+      if r.get("xml").is_some() && r["src"] == "bytes" && replay.is_none() {
+        generated_as_they_are.push(json!({"model": r["model"], "load": r["load"], "build": r["build"], "invocations_with_a_value": r["inv"].as_array().map_or(0, |a| a.iter().filter(|x| *x == "value").count()), "build_error": res["build_error"]}));
+      }
       calls += 2 + res["inv"].as_array().map_or(0, |a| a.len()) as u64;
     }
   }
@@ -627,6 +665,7 @@ pub fn check(mut ctx: Ctx, replay: Option<J>) -> ! {
   let n = recs.len() as u64;
   ctx.cov("models_faulted", json!(models.len()));
   ctx.cov("nodes", json!(models.iter().map(|m| m.nodes.len()).sum::<usize>()));
+  ctx.cov("generated_models_loaded_as_they_are", json!(generated_as_they_are));
   ctx.cov("documents", json!(n));
   ctx.cov("evaluations", json!(calls));
   ctx.cov("distinct_nontrivial", json!(n));
